@@ -14,6 +14,7 @@ import (
 var (
 	ErrServiceAlreadyStarted = fmt.Errorf("recoverable service already started")
 	ErrServiceNotRunning     = fmt.Errorf("recoverable service not running")
+	ErrServiceClosed         = fmt.Errorf("recoverable service closed")
 	errServiceStopped        = fmt.Errorf("service stopped")
 )
 
@@ -60,15 +61,25 @@ type recoverer struct {
 	coolDown time.Duration
 
 	// internal state
-	running   atomic.Bool
+	running atomic.Bool
+	// closed is set by Close and never reset: a recoverer that was closed before
+	// Start got to run must not launch the service afterwards
+	closed    atomic.Bool
 	closeOnce sync.Once
 }
 
 // Start starts the recoverable service and the recovery watcher and returns an
 // error if the recoverer is already running
 func (m *recoverer) Start(ctx context.Context) error {
-	if m.running.Load() {
+	if !m.running.CompareAndSwap(false, true) {
 		return ErrServiceAlreadyStarted
+	}
+
+	// running is set before closed is read and Close sets closed before it reads
+	// running, so a Close that returned ErrServiceNotRunning is seen here
+	if m.closed.Load() {
+		m.running.Store(false)
+		return ErrServiceClosed
 	}
 
 	go m.recoverableStart(ctx)
@@ -81,6 +92,8 @@ func (m *recoverer) Start(ctx context.Context) error {
 // Stop stops the recoverable service and recovery watcher and returns an error
 // if the recoverer is already stopped
 func (m *recoverer) Close() error {
+	m.closed.Store(true)
+
 	if !m.running.Load() {
 		return ErrServiceNotRunning
 	}
@@ -93,8 +106,6 @@ func (m *recoverer) Close() error {
 }
 
 func (m *recoverer) serviceStart(ctx context.Context) {
-	m.running.Store(true)
-
 	for {
 		select {
 		case err := <-m.stopped:
